@@ -233,17 +233,19 @@ func fileInfo(name string, part *multipart.Part) os.FileInfo {
 		}
 	}
 
-	var secs, nsecs int64
+	// The modification time stays unset (zero time) unless the sender
+	// transmitted one: a part that only carries a mode has no mtime.
 	if v := params["mtime"]; v != nil {
-		secs, err = strconv.ParseInt(v[0], 10, 64)
+		secs, err := strconv.ParseInt(v[0], 10, 64)
 		if err != nil {
 			return &fi
 		}
+		var nsecs int64
+		if v := params["mtime-nsecs"]; v != nil {
+			nsecs, _ = strconv.ParseInt(v[0], 10, 64)
+		}
+		fi.mtime = time.Unix(secs, nsecs)
 	}
-	if v := params["mtime-nsecs"]; v != nil {
-		nsecs, _ = strconv.ParseInt(v[0], 10, 64)
-	}
-	fi.mtime = time.Unix(secs, nsecs)
 
 	return &fi
 }
